@@ -72,7 +72,13 @@ def run(ctx):
         if any(k not in have for k in ks):
             have.update(ks)
             keep.append(s)
-    scen = keep + scen[:(600 if q else 25000)]
+    per = {}
+    extra = []
+    for s in scen:      # the other sub-commands: a fixed number of runs each (their arguments are drawn afresh per run)
+        if s["sub"] not in SEARCH and per.get(s["sub"], 0) < (30 if q else 400):
+            per[s["sub"]] = per.get(s["sub"], 0) + 1
+            extra.append(s)
+    scen = keep + extra + scen[:(600 if q else 25000)]
     sf = os.path.join(ctx.work, "cli-run.jsonl")
     with open(sf, "w") as f:
         for s in scen:
